@@ -103,13 +103,13 @@ def run(ctx):
         rows2 = P.table(ctx, '<T as serialize::TryFromAmqpFrame>::try_from', ['expected_id', 'frame'])
         got = [(x.cond_strs(), x.value_str()) for x in rows2]
         want2 = [(['frame ~ amq_protocol::frame::AMQPFrame::Method(_, _)', '(expected_id == frame.Method.0)'], 'serialize::TryFromAmqpClass::try_from(frame.Method.1)'),
-                 (['frame ~ amq_protocol::frame::AMQPFrame::Method(_, _)', '!(expected_id == frame.Method.0)'], FU), (['frame ~ _'], FU)]
+                 (['frame ~ amq_protocol::frame::AMQPFrame::Method(_, _)', '!(expected_id == frame.Method.0)'], FU), (['frame ~ not amq_protocol::frame::AMQPFrame::Method(_, _)'], FU)]
         r.eq('TryFromAmqpFrame', got, want2, ctx.site('<T as serialize::TryFromAmqpFrame>::try_from'), why='method frames on another channel and non-method frames are out of order')
         for ty in ('Start', 'Secure', 'Tune', 'OpenOk', 'Close'):
             fnp = '<%s%s as serialize::TryFromAmqpClass>::try_from' % (CONN, ty)
             rows3 = P.table(ctx, fnp, ['class'])
             got = [(x.cond_strs(), x.value_str()) for x in rows3]
-            want3 = [(['class ~ amq_protocol::protocol::AMQPClass::Connection(%sAMQPMethod::%s(_))' % (CONN, ty)], 'Ok(class.Connection.0.%s.0)' % ty), (['class ~ _'], FU)]
+            want3 = [(['class ~ amq_protocol::protocol::AMQPClass::Connection(%sAMQPMethod::%s(_))' % (CONN, ty)], 'Ok(class.Connection.0.%s.0)' % ty), (['class ~ not amq_protocol::protocol::AMQPClass::Connection(%sAMQPMethod::%s(_))' % (CONN, ty)], FU)]
             r.eq('TryFromAmqpClass:%s' % ty, got, want3, ctx.site(fnp))
 
     with ctx.rule('R16.2', 'result mapping after the handshake loop', floor=5) as r:
@@ -126,7 +126,7 @@ def run(ctx):
         r.eq('ServerClosing', got.get(HS + 'ServerClosing(_)'),
              ('errors::ServerClosedConnectionSnafu::fail(errors::ServerClosedConnectionSnafu{code: $m0.ServerClosing.0.reply_code, message: $m0.ServerClosing.0.reply_text})', None), site)
         e1 = [x for x in err if x.conds[-1][1] == '(%sSecure(_, _), errors::Error::UnexpectedSocketClose)' % HS]
-        e2 = [x for x in err if x.conds[-1][1] == '_']
+        e2 = [x for x in err if x.conds[-1][1] == 'not (%sSecure(_, _), errors::Error::UnexpectedSocketClose)' % HS]
         r.check('socket-closed-after-StartOk', len(e1) == 1 and e1[0].value_str() == 'errors::InvalidCredentialsSnafu::fail(errors::InvalidCredentialsSnafu)', site, built=[x.row() for x in err],
                 expected='(Secure, UnexpectedSocketClose) => InvalidCredentials', why='InvalidCredentials only when the connection is dropped after StartOk without a reply')
         r.check('other-errors-unchanged', len(e2) == 1 and e2[0].value_str() == 'Err(%s.Err.0)' % loop and err.index(e2[0]) > (err.index(e1[0]) if e1 else -1), site, built=[x.row() for x in e2],
